@@ -15,7 +15,7 @@ from .common import qmap
 PID = "C09"
 FUNCTIONS = ["Scalar._DoOperation number branches / __r*__ operators", "Array._DoOperation number and ndarray branches / __r*__ operators", "_ValueGenerator",
              "barril._util.types_.IsNumber", "Quantity.CreateEmpty", "UnitDatabase.Divide/FloorDivide with the empty quantity", "Array.__array_ufunc__ = None"]
-XS = ["a_np_int", "f_np_int", "s_unknown_cap", "a_unknown_cap", "f_unknown_cap_np", "s_restricted", "a_restricted", "s_m", "s_degC", "s_m2", "s_per_s", "a_list", "a_tuple", "a_np", "a_np_m2", "f_list", "f_np"]
+XS = ["a_np_cm_two_cats", "a_np_int", "f_np_int", "s_unknown_cap", "a_unknown_cap", "f_unknown_cap_np", "s_restricted", "a_restricted", "s_m", "s_degC", "s_m2", "s_per_s", "a_list", "a_tuple", "a_np", "a_np_m2", "f_list", "f_np"]
 OPS = ["k*x", "x*k", "x/k", "x//k", "x+k", "k+x", "x-k", "k-x", "k/x", "k//x"]
 KS = ["py_frac", "float_edge", "sym", "int", "np.float64", "np.float32", "np.int64", "np.uint8", "np.uint64", "np.int16", "ndarray", "ndarray0d", "sym_ndarray", "list"]
 BOUNDS = {
@@ -40,6 +40,8 @@ def items(tier, seed):
                     continue
                 if k == "list":
                     continue  # a python list is not a number/ndarray operand
+                if x == "a_np_cm_two_cats" and k not in ("py_frac", "int", "np.float64"):
+                    continue  # exactness in IEEE arithmetic: concrete amounts, concrete k
                 if x in ("a_np_int", "f_np_int") and k not in ("np.float64", "int", "np.int64", "ndarray", "ndarray0d", "py_frac"):
                     continue  # integer-dtype storage: concrete amounts, concrete k
                 if k == "py_frac" and x not in ("a_np_int", "f_np_int", "a_list", "s_m"):
@@ -48,7 +50,7 @@ def items(tier, seed):
                     continue
                 ns = [0, 2] if tier == "quick" else [0, 1, 2, 3]
                 for n in (ns if not x.startswith("s_") else [1]):
-                    if (x.startswith("f_") and n < 2) or (n == 0 and (x in ("a_np_m2",) or k in ("ndarray", "sym_ndarray"))):
+                    if (x.startswith("f_") and n < 2) or (n == 0 and (x in ("a_np_m2", "a_np_cm_two_cats") or k in ("ndarray", "sym_ndarray"))):
                         continue
                     if k in ("np.uint8", "np.uint64", "np.int16") and x in ("s_m2", "s_per_s", "a_np_m2", "s_restricted", "a_restricted"):
                         continue
@@ -70,7 +72,7 @@ def _mk(cfg, V):
     from barril.units import Array, FixedArray, Scalar
 
     name, n = cfg["x"], cfg["n"]
-    conc = name in ("a_np_int", "f_np_int") or cfg["k"] in ("py_frac", "np.float64", "np.float32", "np.int64", "np.uint8", "np.uint64", "np.int16", "ndarray", "ndarray0d", "float_edge")
+    conc = name in ("a_np_int", "f_np_int", "a_np_cm_two_cats") or cfg["k"] in ("py_frac", "np.float64", "np.float32", "np.int64", "np.uint8", "np.uint64", "np.int16", "ndarray", "ndarray0d", "float_edge")
     CONC = {"x0": 1.0, "x1": 6.0, "x2": 0.3} if cfg["k"] == "float_edge" else CONCRETE
     xs = [CONC["x%d" % i] if conc else V["x%d" % i] for i in range(3)][:(n if name.startswith("a_") else max(n, 1))]
 
@@ -80,6 +82,11 @@ def _mk(cfg, V):
     if name in ("s_restricted", "a_restricted"):
         cat, unit = _restricted()
         return (Scalar(xs[0], unit, cat), xs[:1]) if name.startswith("s_") else (Array(list(xs), unit, cat), xs)
+    if name == "a_np_cm_two_cats":
+        # one quantity type twice in the SAME non-base unit under two categories, numpy storage, amounts that do not survive v/100*100
+        vals = [7.0, 0.07, 0.3][:len(xs)]
+        a_ = Array(numpy.array(vals), "cm", "length") * Array(numpy.array([1.0] * len(vals)), "cm", "depth")
+        return a_, vals
     if name in ("a_np_int", "f_np_int"):
         ints = [1, 6, 3][:len(xs)]
         return (Array(numpy.array(ints), "m") if name.startswith("a_") else FixedArray(len(ints), numpy.array(ints), "m")), [float(i) for i in ints]
@@ -202,6 +209,9 @@ def run(cfg, V):
     if is_barril:
         v = r.GetAbstractValue()
         out["vals"] = list(v) if isinstance(v, (list, tuple, numpy.ndarray)) else [v]
+        xv = x.GetAbstractValue()
+        kind = lambda c: "ndarray" if isinstance(c, numpy.ndarray) else type(c).__name__  # noqa: E731
+        out["cont"] = (kind(v), kind(xv)) if isinstance(xv, (list, tuple, numpy.ndarray)) else None
         out["rq"] = qmap(r)
         out["same_q"] = r.GetQuantity() == x.GetQuantity()
         out["unit"] = (r.GetUnit(), x.GetUnit())
@@ -225,6 +235,15 @@ def props(cfg, T, obs):
     else:
         P.append(("the result keeps x's quantity", bool(obs["same_q"]) and obs["unit"][0] == obs["unit"][1]))
     P.append(("one result element per element of x", len(obs["vals"]) == len(xs)))
+    if obs.get("cont") and cfg["k"] not in ("ndarray", "ndarray0d", "sym_ndarray"):
+        P.append(("with a plain number on either side the result keeps the container kind of x (list, tuple, ndarray)", obs["cont"][0] == obs["cont"][1]))
+    if cfg["x"] == "a_np_cm_two_cats":
+        f = {"k*x": lambda a, b: b * a, "x*k": lambda a, b: a * b, "x/k": lambda a, b: a / b, "x//k": lambda a, b: a // b, "x+k": lambda a, b: a + b, "k+x": lambda a, b: b + a,
+             "x-k": lambda a, b: a - b, "k-x": lambda a, b: b - a, "k/x": lambda a, b: b / a, "k//x": lambda a, b: b // a}[op]
+        want = [f(float(a), float(b)) for a, b in zip(obs["xs"], obs["ks"])]
+        P.append(("auxiliary, concrete (not solver-decided): with the unit already matching, the amounts are combined EXACTLY as Python's float operator does (no detour through another unit)",
+                  [float(v) for v in obs["vals"]] == want))
+        return P
     if cfg["k"] == "float_edge":
         import operator
 
